@@ -30,7 +30,7 @@ ASSUMPTIONS = [
 COMPONENTS = {"real": ["Transmitter._reset/_next/walk_forward", "Folds.as_time", "PartitionTimeRanges", "TradingEnv.reset/step"],
               "harness": ["delivery model", "seed sweeps"], "stub": []}
 PROBE_FLOORS = {"episode_length_exact": 248, "refused_when_nothing_fits": 30, "all_starts_reached": 29, "overlapping_folds": 50,
-                "walk_forward_run": 29, "sampling_span": 21, "length_equals_fold_size": 30, "foreign_prng_draws": 57}
+                "walk_forward_run": 29, "sampling_span": 21, "reset_argument_override": 20, "length_equals_fold_size": 30, "foreign_prng_draws": 57}
 
 PROFILE = {
     "n_min": 3, "n_max": 14, "n_long": 40, "p_long": 0.1, "c_min": 1, "c_max": 2, "p_bar": 1.0, "extras_max": 4,
@@ -75,11 +75,20 @@ def generate(rng, i):
         else:
             reps = rng.randint(3, 12)
         full_every = max(1, reps // 4)
+        # a one-off override through reset(episode_length=m): "the episode will stop after this number of states",
+        # i.e. m timesteps and m-1 decisions; it must not change what later plain resets do
+        override_at = rng.randrange(reps) if rng.random() < 0.4 and m >= 2 else None
         for r in range(reps):
             if rng.random() < 0.3:
                 script.append({"op": "draw", "n": rng.randint(1, 5)})
+            if r == override_at:
+                mm = rng.randint(2, m)
+                script.append({"op": "reset", "env": 0, "fold": fold, "np_seed": rng.randrange(2 ** 31), "episode_length": mm})
+                for _ in range(mm):
+                    script.append({"op": "step", "env": 0, "action": null_action(env)})
+                continue
             script.append({"op": "reset", "env": 0, "fold": fold, "np_seed": rng.randrange(2 ** 31)})
-            if r % full_every == 0:
+            if r % full_every == 0 or (override_at is not None and r == override_at + 1):
                 for _ in range(nlen + 1):     # one call more than needed: the extra one must be refused
                     script.append({"op": "step", "env": 0, "action": null_action(env)})
     else:
@@ -184,11 +193,16 @@ def execute(scenario):
     env_spec = sc["envs"][0]
     d = Delivery(env_spec, gen_epi.auto_disc(env_spec))
     h = sim.handles[0]
-    L = env_spec.get("episode_length")
+    L_conf = env_spec.get("episode_length")
     starts_seen = {}
     completed = 0
     for ep in h.episodes:
         fold = ep["reset"]["fold"]
+        # number of decisions of this episode: the configured n, or m-1 for a one-off reset(episode_length=m)
+        arg = ep["reset"].get("episode_length_arg")
+        L = (arg - 1) if arg else L_conf
+        if arg:
+            probe("reset_argument_override")
         steps_fold = d.fold_steps(fold)
         a, b = d.fold_window(fold)
         fits = len(steps_fold) - (L or 0) if L else (1 if steps_fold else 0)
@@ -247,7 +261,8 @@ def execute(scenario):
             if i0 + L + 1 > len(steps_fold):
                 violate("start_does_not_fit", "episode of {} decisions starts at fold index {} of {} timesteps".format(L, i0, len(steps_fold)), kind="fit")
                 break
-            starts_seen.setdefault(fold, set()).add(i0)
+            if not arg:
+                starts_seen.setdefault(fold, set()).add(i0)
             if done_reached:
                 if n_steps != L:
                     violate("episode_length", "episode_length {} but the episode had {} decisions before done".format(L, n_steps), kind="count", diff=n_steps - L)
@@ -265,10 +280,11 @@ def execute(scenario):
             if done_reached and n_steps != len(steps_fold) - 1:
                 violate("episode_length", "fold of {} timesteps gave {} decisions".format(len(steps_fold), n_steps), kind="full_count", diff=n_steps - (len(steps_fold) - 1))
                 break
+    L = L_conf
     if not violations and L and env_spec.get("sampling_span") is None and not scenario.get("wf"):
         for fold, seen in starts_seen.items():
             k = len(d.fold_steps(fold)) - L
-            n_resets = sum(1 for ep in h.episodes if ep["reset"]["fold"] == fold and not ep["failed"])
+            n_resets = sum(1 for ep in h.episodes if ep["reset"]["fold"] == fold and not ep["failed"] and not ep["reset"].get("episode_length_arg"))
             if 0 < k <= 8 and n_resets >= int(25 * k * math.log(max(k, 2))) + 20:
                 missing = sorted(set(range(k)) - seen)
                 if missing:
